@@ -1,6 +1,7 @@
 """Binding B: validate executions recorded from the real code against a *Trace.tla specification."""
 import json
 import os
+import uuid
 from concurrent.futures import ThreadPoolExecutor
 
 from . import env, tlc
@@ -18,7 +19,7 @@ class TraceOutcome:
 
 def _run_batch(module, cfg, spec_dir, traces, idxs, progress, tag, workers, depth_first, timeout):
     d = env.subdir("traces")
-    path = os.path.join(d, "%s-%s.json" % (tag, idxs[0]))
+    path = os.path.join(d, "%s-%s-%s.json" % (tag, idxs[0], uuid.uuid4().hex[:8]))
     with open(path, "w") as f:
         json.dump([traces[i] for i in idxs], f)
     res = tlc.run(module, cfg, spec_dir=spec_dir, workers=workers, deadlock=False, coverage=False,
